@@ -328,6 +328,16 @@ func (bn *baseNode) setOwner(uid, gid int, u avfs.UserReader, admin bool) bool {
 		}
 	}
 
+	// chown(2) clears the set-user-ID bit of anything but a directory, and its set-group-ID bit too
+	// when it is executable by the group or when the caller is neither privileged nor in its group.
+	if !bn.mode.IsDir() {
+		bn.mode &^= fs.ModeSetuid
+
+		if bn.mode&0o010 != 0 || !admin && u.Gid() != bn.gid {
+			bn.mode &^= fs.ModeSetgid
+		}
+	}
+
 	if uid != -1 {
 		bn.uid = uid
 	}
